@@ -202,7 +202,8 @@ class Ctx:
         self.trace = []
         self.feas_cache = None
         self.callres = None
-        self.stop_at = None          # (fn name, set of bbs) cut points for the top frame
+        self.stop_at = None          # {bb: n}: end the path (kind "cut") on the n-th arrival at bb in the top frame
+        self.vmcell = None
         self.stats = None
 
     # -- choices / solver ---------------------------------------------------------------
@@ -730,10 +731,9 @@ class Ctx:
         bb = start
         top = self.depth == 1
         while True:
-            if top and self.stop_at and bb in self.stop_at and frame["visits"].get("__started"):
-                raise PathEnd("cut", bb, frame)
-            frame["visits"]["__started"] = True
             n = frame["visits"].get(bb, 0) + 1
+            if top and self.stop_at and bb in self.stop_at and n >= self.stop_at[bb]:
+                raise PathEnd("cut", bb, frame)
             frame["visits"][bb] = n
             if n > self.max_visits:
                 raise PathEnd("loop-bound", "%s %s" % (fn.name, bb))
@@ -843,13 +843,15 @@ class CallResolver:
         h = h.strip()
         m = re.match(r"^derive (#\[.*\]) for (\w+)$", h)
         if m:
-            return ("@derive", m.group(2))
+            return ("@derive", m.group(2), None)
         h = re.sub(r"^(unsafe )?impl\s*(<.*?>)?\s*", "", h) if not h.startswith("impl<") else _drop_impl_generics(h)
         h = h.split(" where ")[0].strip()
         if " for " in h:
             tr, ty = h.split(" for ", 1)
-            return (strip_generics(tr).split("::")[-1].strip(), strip_generics(ty).split("::")[-1].strip().lstrip("&"))
-        return (None, strip_generics(h).split("::")[-1].strip())
+            ta = type_args(tr.strip())
+            return (strip_generics(tr).split("::")[-1].strip(), strip_generics(ty).split("::")[-1].strip().lstrip("&"),
+                    type_head(ta[0]) if ta else None)
+        return (None, strip_generics(h).split("::")[-1].strip(), None)
 
     def resolve(self, callee):
         if callee in self.cache:
@@ -864,9 +866,12 @@ class CallResolver:
             return self.fns[c]
         tr, ty, meth = None, None, None
         full_ty = None
+        call_targ = None
         m = re.match(r"^<(.+) as (.+)>::(\w+)(?:::<.*>)?$", c, re.S)
         if m:
             full_ty = strip_generics(m.group(1)).lstrip("&").replace("mut ", "").strip()
+            _ta = type_args(m.group(2).strip())
+            call_targ = type_head(_ta[0]) if _ta else None
             ty = strip_generics(m.group(1)).split("::")[-1].lstrip("&").replace("mut ", "").strip()
             tr = strip_generics(m.group(2)).split("::")[-1]
             meth = m.group(3)
@@ -885,7 +890,7 @@ class CallResolver:
                 if tr is None and (f.name == strip_generics(c) or f.name.endswith("::" + strip_generics(c))):
                     out.append(f)
                 continue
-            ftr, fty = meta
+            ftr, fty = meta[0], meta[1]
             if tr is not None:
                 if fty == ty and (ftr == tr or (ftr == "@derive")):
                     out.append(f)
@@ -900,6 +905,13 @@ class CallResolver:
                 return q[0]
             if q:
                 out = q
+        if len(out) > 1 and tr is not None and call_targ is not None:
+            exact = [f for f in out if self.meta[f.name][2] == call_targ]
+            generic = [f for f in out if self.meta[f.name][2] is not None and re.match(r"^[A-Z]\w?$", self.meta[f.name][2])]
+            if len(exact) == 1:
+                return exact[0]
+            if not exact and len(generic) == 1:
+                return generic[0]
         if len(out) > 1 and tr is not None:
             # derive impls on the same type: pick by trait via location column order is unknowable -> ambiguous
             exact = [f for f in out if self.meta[f.name][0] == tr]
